@@ -27,10 +27,9 @@ pub trait EncoderExt: Encoder { fn buffer_settings(&self) -> BufferSettings; }
 pub struct Source<I> { pub log: Ghost<Seq<I>>, pub done: Ghost<bool> }
 pub struct PinMut<'a, S> { pub p: &'a mut S }
 impl<'a, I> PinMut<'a, Source<I>> {
-    #[verifier::external_body]
     pub fn as_mut(&mut self) -> (r: PinMut<'_, Source<I>>)
         ensures *r.p == *old(self).p, *final(r.p) == *final(self).p, *final(final(self).p) == *final(old(self).p)
-    { unimplemented!() }
+    { PinMut { p: &mut *self.p } }
     #[verifier::external_body]
     pub fn poll_next(self, cx: &mut Context) -> (r: Poll<Option<I>>)
         ensures
@@ -97,6 +96,7 @@ where
     T: EncoderExt<Error = Status>,
 {
     #[verifier::exec_allows_no_decreases_clause]
+    #[verifier::loop_isolation(false)]
     fn poll_next(&mut self, cx: &mut Context) -> (r: Poll<Option<Result<Bytes, Status>>>)
         requires
             old(self).compression_encoding == old(self).eff_enc(),
@@ -110,8 +110,12 @@ where
             r matches Poll::Ready(Some(Err(st))) ==> old(self).buf@.len() == 0 || old(self).error is Some,
     '''
 body=body_pn
-body=body.replace("        let buffer_settings = encoder.buffer_settings();","        let ghost n0 = source.p.log@.len() as int; let ghost buf0 = buf@; let ghost enc0 = *compression_encoding;\n        let buffer_settings = encoder.buffer_settings();")
-body=body.replace("        loop {","        loop\n            invariant\n                *error is None, *compression_encoding == enc0, n0 <= source.p.log@.len(),\n                all_ok(source.p.log@.skip(n0)), buf0 == old(self).buf@, n0 == old(self).source.log@.len(), enc0 == old(self).compression_encoding, old(self).error is None,\n                source.p.log@.len() > n0 ==> buf@.len() > 0,\n                buf@ == buf0 + wire_of::<T>(enc0, source.p.log@.skip(n0)),\n        {",1)
+body=body.replace("        let buffer_settings = encoder.buffer_settings();","        let ghost fut_src = *final(source.p); let ghost n0 = source.p.log@.len() as int; let ghost buf0 = buf@; let ghost enc0 = *compression_encoding;\n        let buffer_settings = encoder.buffer_settings();")
+body=body.replace("            match source.as_mut().poll_next(cx) {","            let ghost log_before = source.p.log@;\n            match source.as_mut().poll_next(cx) {",1)
+hint="proof { let x = source.p.log@.last(); assert(source.p.log@ =~= log_before.push(x)); assert(source.p.log@.skip(n0) =~= log_before.skip(n0).push(x)); lemma_wire_push::<T>(enc0, log_before.skip(n0), x); }"
+body=body.replace("                    if buf.len() >= buffer_settings.yield_threshold {","                    "+hint+"\n                    if buf.len() >= buffer_settings.yield_threshold {",1)
+body=body.replace("                    if buf.is_empty() {\n                        return Poll::Ready(Some(Err(status)));","                    "+hint+"\n                    if buf.is_empty() {\n                        return Poll::Ready(Some(Err(status)));",1)
+body=body.replace("        loop {","        loop\n            invariant\n                *error is None, *compression_encoding == enc0, n0 <= source.p.log@.len(),\n                all_ok(source.p.log@.skip(n0)), buf0 == old(self).buf@, n0 == old(self).source.log@.len(), enc0 == old(self).compression_encoding, old(self).error is None,\n                source.p.log@.len() > n0 ==> buf@.len() > 0, source.p.log@.take(n0) =~= old(self).source.log@, *final(source.p) == fut_src,\n                buf@ == buf0 + wire_of::<T>(enc0, source.p.log@.skip(n0)),\n        {",1)
 
 out=b+extra+sigc+body+'\n}\n} // verus!\nfn main() {}\n'
 open('c.rs','w').write(out)
